@@ -127,6 +127,11 @@ func (p *Program) SetRole(fn *ssa.Function, role string) {
 	}
 }
 
+// RoleFlagResults: role helpers whose results after the first are boolean facts handed back to
+// the caller (precomputed answers); the first result is rendered like the single result of the
+// plain form of the helper, the flags as `@role(..)#k`.
+var RoleFlagResults = map[*ssa.Function]bool{}
+
 // RoleName returns the role name of fn ("" if none).
 func RoleName(fn *ssa.Function) string { return roleNames[fn] }
 
